@@ -179,6 +179,23 @@ theorem C04_state_clone_rearmed (L : Layout) (deep : Bool) (x : Inst) :
     · simpa using hh
     · cases hd : x.dict <;> simp_all
 
+/-- **C04_assoc_never_stale**: whatever the original's cache holds and whichever fields the change set
+    touches (hashed or not, compared or not), a successful `hash` of the result of `attr.assoc` is computed
+    from the result's own field values. -/
+theorem C04_assoc_never_stale (c : Case) (L : Layout) (n : Node) (hg : L.hres = .gen n) (idx : Nat)
+    (x : Inst) (ch : List (Nat × Nat)) (hok : (hashCall c L idx (assocInst L x ch)).1 = .ok) :
+    (hashCall c L idx (assocInst L x ch)).2.1 = fresh c n (applyChanges x.vals ch) := by
+  have hnf := assocInst_not_full L x ch
+  unfold hashCall at hok ⊢
+  simp only [hg] at hok ⊢
+  by_cases hc : n.facts.cacheOn = true
+  · simp only [hc, if_true] at hok ⊢
+    cases hcell : readCell L (assocInst L x ch) with
+    | absent => simp [hcell] at hok
+    | empty => simp [assocInst_vals]
+    | full h => exact absurd hcell (hnf h)
+  · simp [hc, assocInst_vals]
+
 /-- freshly constructed instances satisfy the freshness invariant -/
 theorem C04_new_instances_fresh (c : Case) (L : Layout) (n : Node) (vals : List (List Nat)) :
     Fresh c L n (vals.map (newInst L)) := by
